@@ -15,7 +15,9 @@
 #include "definition.h"
 #include "policy.h"
 
+#include <algorithm>
 #include <type_traits>
+#include <utility>
 
 /// compositional numeric library
 namespace cnl {
@@ -65,7 +67,13 @@ namespace cnl {
 
         [[nodiscard]] constexpr auto operator()(Lhs const& lhs, Rhs const& rhs) const
         {
-            return Operator()(static_cast<result_rep>(lhs), static_cast<result_rep>(rhs));
+            // operate in a type wide enough to hold both operands (matters for /, %, &, whose
+            // results are narrower than an operand), then narrow to the result
+            using operand_rep = set_digits_t<
+                    result_rep, std::max({digits_v<result_rep>, LhsDigits, RhsDigits})>;
+            using return_type = decltype(Operator()(std::declval<result_rep>(), std::declval<result_rep>()));
+            return static_cast<return_type>(
+                    Operator()(static_cast<operand_rep>(lhs), static_cast<operand_rep>(rhs)));
         }
     };
 
